@@ -2,6 +2,7 @@
 import Driver.Util
 import SpyneModel.Flat
 import SpyneModel.FlatQs
+import SpyneModel.FlatDecl
 import SpyneModel.Generated.Facts03
 open Lean SpyneModel SpyneModel.Flat Driver
 
@@ -89,6 +90,21 @@ where
      jTy (fld f "t"))
 
 def jFields (j : Json) : List Fld := (jArr j).map jTy.jFld
+
+/-- declared signature: members may carry "py" (Python name) next to "n" (sub_name) -/
+partial def jDTy (j : Json) : Flat.DTy :=
+  match jPrim j with
+  | some p => .prim p
+  | none => .obj (jNat (fld j "cid")) ((jArr (fld j "fields")).map jDFld)
+where
+  jDFld (f : Json) : DFld :=
+    let occ : Flat.Occ := ⟨jBool (fld f "many"), jNat (fld f "min"), (match fld f "max" with | .null => none | x => some (jNat x)),
+      (match fld f "nillable" with | .bool b => b | _ => true)⟩
+    match fld f "py" with
+    | .null => (jText (fld f "n"), none, occ, jDTy (fld f "t"))
+    | py => (jText py, some (jText (fld f "n")), occ, jDTy (fld f "t"))
+
+def jDFields (j : Json) : List DFld := (jArr j).map jDTy.jDFld
 
 def jCfg (j : Json) : Cfg := ⟨jBool (fld j "strict"), jBool (fld j "soft"), jText (fld j "delim")⟩
 
@@ -211,12 +227,19 @@ def step (j : Json) : Json :=
     Json.arr ((stiFields (jText (fld j "delim")) [] (jFields (fld j "fields"))).map (fun kv =>
       Json.arr #[textJson kv.1, Json.arr (kv.2.path.map textJson).toArray,
         Json.bool kv.2.prim.isNone, Json.bool kv.2.many])).toArray
+  | "sti.decl" =>
+    Json.arr ((stiFields (jText (fld j "delim")) [] (keyedFields F none (jDFields (fld j "fields")))).map (fun kv =>
+      Json.arr #[textJson kv.1, Json.arr (kv.2.path.map textJson).toArray,
+        Json.bool kv.2.prim.isNone, Json.bool kv.2.many])).toArray
   | "hdr.date" => textJson (httpDate (jDt (getArr j "v")))
   | "qs.parse" => docJson (parseQs F (jText (fld j "qs")))
   | "qs.quote" => textJson (quote (jText (fld j "s")))
   | "qs.unquote" => textJson (unquote (jText (fld j "s")))
   | "flat.decode" => outJson nodeJson (decode F (jCfg (fld j "cfg")) (jFields (fld j "fields")) (jDoc (fld j "doc")))
-  | "http.get" => outJson nodeJson (decodeQs F (jCfg (fld j "cfg")) (jFields (fld j "fields")) (jText (fld j "qs")))
+  | "http.get" =>
+    match httpGet F (jCfg (fld j "cfg")) (jFields (fld j "fields")) (jText (fld j "qs")) with
+    | .wsdl => Json.mkObj [("wsdl", Json.bool true)]
+    | .call r => outJson nodeJson r
   | "flat.encode" =>
     let fs := jFields (fld j "fields")
     let inst := jNode false (.obj 0 fs) (fld j "inst")
